@@ -616,6 +616,10 @@ def run (ctx):
       # the test exists but does not guard the choice: decide by reachability with the reverse absent
       env_ = q.Env({}, [(is_bidir, False)])
       r_ = q.reach_under(repo, cst.module, g4, env_, None)
+      if wn in r_:
+        # the choice may be recorded in a local first (`good = l ... if good is not None: adj[..] = good.port1`): follow the constants
+        r2_ = q.reach_under_cp(repo, cst.module, g4, env_, None, limit=2000)
+        if r2_ and wn not in r2_ and g4.exit in r2_: r_ = r2_
       ctx.ob('R-DOM', cst, "only links seen in both directions are used for the tree", wn not in r_,
              "the ports are fixed only when the reverse link is known" if wn not in r_ else "the ports of a pair are fixed from a link whose reverse direction is not in the adjacency table: one-way links end up in the tree", cst, 'D4')
     else:
